@@ -369,3 +369,31 @@ pub fn replay(v: &serde_json::Value) -> i32 {
     let prog: Program = serde_json::from_value(v["params"].clone()).expect("params");
     super::replay_schedule(factory(prog), v)
 }
+
+/// Demonstration (not part of the check): the in-memory client's update is a synchronous
+/// check-then-insert; on two real threads two updates based on the same generation can both succeed.
+/// `vcheck C13 stress` runs it with free-running OS threads and reports how often that happened.
+pub fn stress_local(rounds: usize) -> (usize, usize) {
+    use std::sync::Barrier;
+    let mut both_ok = 0usize;
+    for _ in 0..rounds {
+        let c = Arc::new(LocalMetadataClient::new());
+        futures::executor::block_on(c.update_shard_metadata(SHARD, &meta(0, "init"), 0)).unwrap();
+        let b = Arc::new(Barrier::new(2));
+        let hs: Vec<_> = (0..2)
+            .map(|i| {
+                let c = c.clone();
+                let b = b.clone();
+                std::thread::spawn(move || {
+                    b.wait();
+                    futures::executor::block_on(c.update_shard_metadata(SHARD, &meta(1, &format!("t{i}")), 1)).is_ok()
+                })
+            })
+            .collect();
+        let r: Vec<bool> = hs.into_iter().map(|h| h.join().unwrap()).collect();
+        if r.iter().all(|x| *x) {
+            both_ok += 1;
+        }
+    }
+    (rounds, both_ok)
+}
